@@ -25,8 +25,21 @@ var numSymbols = []numSym{
 	{"1e9", 1e9, true}, {"", 0, false},
 }
 
+// numLarge: large magnitude with unit-size spread (and, by repetition,
+// identical huge values) - where a moments formula that subtracts two huge
+// nearly equal quantities loses everything. All are exactly representable.
+var numLarge = []numSym{
+	{"1000000004", 1000000004, true}, {"1000000007", 1000000007, true}, {"1000000013", 1000000013, true}, {"1000000016", 1000000016, true},
+	{"1000000000000000", 1e15, true}, {"1000000000000001", 1e15 + 1, true}, {"-1000000000003", -1000000000003, true}, {"1", 1, true},
+}
+
 func numLookup(s string) (float64, bool) {
 	for _, y := range numSymbols {
+		if y.s == s {
+			return y.v, y.ok
+		}
+	}
+	for _, y := range numLarge {
 		if y.s == s {
 			return y.v, y.ok
 		}
@@ -37,12 +50,24 @@ func numLookup(s string) (float64, bool) {
 // quantile probabilities as exact fractions (analyze passes q/100)
 var quantFracs = [][2]int64{{0, 1}, {1, 4}, {1, 2}, {9, 10}, {99, 100}, {1, 1}}
 
-func approx(got, want, scale float64) bool {
+// tolerance: 1e-9 relative to the expected figure plus 1e-12 of the magnitude
+// of the data (scale = max |sample|). The second term is what "within
+// floating-point tolerance" has to grant any streaming algorithm: a stable
+// one-pass update (Welford) has an absolute error of about n*eps*scale
+// (n <= 7, eps = 1.1e-16) in mean and standard deviation, i.e. three orders
+// of magnitude below this bound, at every magnitude.
+func tolerance(want, scale float64) float64 {
+	return 1e-9*math.Abs(want) + 1e-12*math.Max(1, scale)
+}
+
+func approxTol(got, want, tol float64) bool {
 	if math.IsNaN(got) || math.IsInf(got, 0) {
 		return false
 	}
-	return math.Abs(got-want) <= 1e-9*math.Max(1, scale)
+	return math.Abs(got-want) <= tol
 }
+
+func approx(got, want, scale float64) bool { return approxTol(got, want, tolerance(want, scale)) }
 
 // runNumerical returns every failure found (accessor failures do not stop the
 // run: a panic in Quantile leaves the object usable and the remaining prefixes
@@ -50,11 +75,11 @@ func approx(got, want, scale float64) bool {
 func runNumerical(config string, samples []string) (res result, fails []*fail) {
 	cfg := &aggregation.NumericalConfig{}
 	switch config {
-	case "keep":
+	case "keep", "keep-large":
 		cfg.KeepValuesForAnalysis = true
 	case "keep-reverse":
 		cfg.KeepValuesForAnalysis, cfg.Reverse = true, true
-	case "nokeep":
+	case "nokeep", "nokeep-large":
 	default:
 		panic("harness: unknown numerical config " + config)
 	}
@@ -63,6 +88,9 @@ func runNumerical(config string, samples []string) (res result, fails []*fail) {
 	ref := &refNumerical{}
 	seen := map[string]bool{}
 	add := func(f *fail, upto int) {
+		if f != nil && strings.HasSuffix(config, "-large") && (strings.HasSuffix(f.sig, "-mismatch") || strings.Contains(f.sig, "-not-")) {
+			f.sig += "/large-magnitude" // own input class: huge values with unit-size spread
+		}
 		if f == nil || seen[f.sig] {
 			return
 		}
@@ -163,7 +191,9 @@ func numericalChecks(impl *aggregation.MatchNumerical, cfg *aggregation.Numerica
 				return nil
 			}},
 			numCheck{"Variance", func() *fail {
-				if g := impl.Variance(); !approx(g, sd*sd, scale*scale) {
+				// an error e in the standard deviation is an error of 2*sd*e + e*e in the variance
+				e := tolerance(sd, scale)
+				if g := impl.Variance(); !approxTol(g, sd*sd, 2*sd*e+e*e+1e-9*sd*sd) {
 					return failf("C07/numerical/variance-mismatch", "Variance()=%v, sample variance is %v", g, sd*sd)
 				}
 				return nil
